@@ -2,6 +2,8 @@ SPECIFICATION MCSpec
 CONSTANTS
   Actors = {"a1", "a2", "a3"}
   Victims = {}
+  Ignore = {}
+  FixIgnore = FALSE
   Prog <- ProgMix
   ForwardOnCancel = TRUE
   UnlockGt = 1
